@@ -624,6 +624,34 @@ theorem queues_rewritten_no_stale_element {s s' : State} {frm to : Addr} {sigOk 
     exact List.mem_map.mpr ⟨(frm, a, b), hm, by simp [renTriple]⟩
 
 
+/-- **queues_rewritten** (unbonding-id index, 0x38).  Hypothesis `IdWF`: before, the index points every entry id of the
+source's unbonding delegations and redelegations at the key of its record, nothing else at a key of the source, nothing
+at a key of the target.  Then afterwards every id reads the old value with the source replaced by the target: ids of
+moved entries point at the target's records, no id points at a key of the source, all other ids are untouched. -/
+theorem queues_rewritten_unbonding_id_index {s s' : State} {frm to : Addr} {sigOk : Bool}
+    (h : migrate cfg s frm to sigOk = .ok s') (wf : IdWF s frm to) :
+    (∀ id, get s'.unbId id = (get s.unbId id).map (swP frm to)) ∧ (∀ id r, get s'.unbId id = some r → r.1 ≠ frm) := by
+  obtain ⟨hne, _, _, _, _, _, _, rfl⟩ := migrate_ok_inv h
+  have hc2 : cfg.rewriteUnbId = true := by rw [cfg_from_code]
+  have wfB : IdWF (bankExecute cfg s frm to) frm to := ⟨wf.id_ubd, wf.id_red, wf.id_of, wf.id_to⟩
+  have key : ∀ id, get (moved s frm to).unbId id = (get s.unbId id).map (swP frm to) :=
+    fun id => unbId_ExtRel cfg hc2 (bankExecute cfg s frm to) wfB id
+  refine ⟨key, fun id r hr e => ?_⟩
+  rw [key] at hr
+  cases hg : get s.unbId id with
+  | none => rw [hg] at hr; cases hr
+  | some r0 =>
+    rw [hg] at hr
+    simp only [Option.map_some, Option.some.injEq] at hr
+    subst hr
+    simp only [swP] at e
+    by_cases h1 : r0.1 = frm
+    · rw [h1, sw_frm] at e; exact hne e.symm
+    · have h2 := wf.id_to id r0 hg
+      rw [sw_fix frm to r0.1 h1 h2] at e
+      exact h1 e
+
+
 /-! ## never_reused -/
 
 /-- every operation keeps existing migration records -/
